@@ -132,7 +132,7 @@ def Good (s : St) : Prop :=
   ((s.ws.active = true → s.ws.pat.isSome = true) ∧ (s.running = false → s.ws.active = false)) ∧
     ∀ c ∈ s.chans, GoodChan s.ws c
 
-theorem good_init (proj : List Bool) (pre : List Run) (nums : List Int) (blocked : List Nat) : Good (St.init proj pre nums blocked) := by
+theorem good_init (proj : List Bool) (pre : List Run) (nums : List Int) (blocked : List Nat) (lens : Int × Int) : Good (St.init proj pre nums blocked lens) := by
   refine ⟨by simp [St.init], ?_⟩
   intro c hc
   simp only [St.init, List.mem_map] at hc
@@ -299,6 +299,20 @@ theorem C06_rejected_is_noop (s : St) (op : Op) (h : (step s op).2 = true) : (st
     split
     · rfl
     · rename_i hh; simp [hh] at h
+  | lens n p =>
+    simp only [step] at h ⊢
+    split
+    · rfl
+    · split
+      · rfl
+      · split
+        · rfl
+        · split
+          · rfl
+          · split
+            · rfl
+            · rename_i h1 h2 h3 h4 h5
+              simp [h1, h2, h3, h4, h5] at h
 
 theorem firstUnused_spec (dirs : List Run) (pid : Nat) : ∀ (fuel i n : Nat),
     firstUnusedFrom dirs pid i fuel = some n → (⟨pid, n⟩ : Run) ∉ dirs ∧ i ≤ n ∧ n < i + fuel := by
@@ -356,7 +370,7 @@ theorem startTarget_some (s : St) (path : Option Nat) (l22 off l3 : Bool) (map :
 theorem startReq_ok (s : St) (path : Option Nat) (l22 off l3 : Bool) (map : Option Nat) (s' : St)
     (h : startReq s path l22 off l3 map = (s', false)) :
     ∃ r : Run, startTarget s path l22 off l3 map = some r ∧
-      s' = { s with chans := s.chans.map (·.start r l22 off l3), dirs := r :: s.dirs,
+      s' = { s with chans := s.chans.map (·.start r l22 off l3), dirs := r :: s.dirs, startLens := s.lens,
                     ws := { active := true, paused := false, base := some r.pid, pat := some r, l22, off, l3 } } := by
   unfold startReq at h
   cases ht : startTarget s path l22 off l3 map with
@@ -364,6 +378,30 @@ theorem startReq_ok (s : St) (path : Option Nat) (l22 off l3 : Bool) (map : Opti
   | some r =>
     simp only [ht] at h
     exact ⟨r, rfl, (Prod.mk.inj h).1.symm⟩
+
+/-- the three outcomes of a record-length request -/
+theorem lens_step_cases (s : St) (n p : Int) :
+    step s (.lens n p) = (s, true) ∨
+    (step s (.lens n p) = (s, false) ∧ (n, p) = s.lens) ∨
+    (step s (.lens n p) =
+        ({ s with lens := (n, p), chans := s.chans.map fun c => { c with proj := false } }, false) ∧
+      (n, p) ≠ s.lens ∧ s.ws.active = false) := by
+  simp only [step]
+  by_cases h1 : (!s.running) = true
+  · left; rw [if_pos h1]
+  · rw [if_neg h1]
+    by_cases h2 : n ≤ 0 ∨ p ≤ 0
+    · left; rw [if_pos h2]
+    · rw [if_neg h2]
+      by_cases h3 : (n, p) = s.lens
+      · right; left; rw [if_pos h3]; exact ⟨rfl, h3⟩
+      · rw [if_neg h3]
+        by_cases h4 : s.ws.active = true
+        · left; rw [if_pos h4]
+        · rw [if_neg h4]
+          by_cases h5 : p < 3 ∨ n < p + 1
+          · left; rw [if_pos h5]
+          · right; right; rw [if_neg h5]; exact ⟨rfl, h3, by simpa using h4⟩
 
 theorem good_reqStep (s : St) (r : List Nat) (path : Option Nat) (l22 off l3 : Bool) (map : Option Nat)
     (hg : Good s) (hr : s.running = true) : Good (reqStep s r path l22 off l3 map).1 := by
@@ -460,6 +498,17 @@ theorem good_step (s : St) (op : Op) (hg : Good s) : Good (step s op).1 := by
       simp only [List.mem_map] at h'
       obtain ⟨c, _, rfl⟩ := h'
       simp [GoodChan, Chan.new, ha, Chan.hasWriter]
+  | lens n p =>
+    obtain ⟨hp, hc⟩ := hg
+    rcases lens_step_cases s n p with h | ⟨h, _⟩ | ⟨h, _, _⟩
+    · rw [h]; exact ⟨hp, hc⟩
+    · rw [h]; exact ⟨hp, hc⟩
+    · rw [h]
+      refine ⟨hp, ?_⟩
+      intro c' h'
+      simp only [List.mem_map] at h'
+      obtain ⟨c, hcm, rfl⟩ := h'
+      exact hc c hcm
 
 theorem good_runOps (ops : List Op) : ∀ s, Good s → Good (runOps s ops) := by
   induction ops with
@@ -514,20 +563,20 @@ theorem agree_of_good (s : St) (hg : Good s) : Agree s := by
     · rw [if_neg hh] at h; cases h
 
 /-- **C06_agree_invariant**: `Agree` holds after every history, from every configuration. -/
-theorem C06_agree_invariant (proj : List Bool) (pre : List Run) (nums : List Int) (blocked : List Nat) (ops : List Op) :
-    Agree (runOps (St.init proj pre nums blocked) ops) :=
-  agree_of_good _ (good_runOps ops _ (good_init proj pre nums blocked))
+theorem C06_agree_invariant (proj : List Bool) (pre : List Run) (nums : List Int) (blocked : List Nat) (lens : Int × Int) (ops : List Op) :
+    Agree (runOps (St.init proj pre nums blocked lens) ops) :=
+  agree_of_good _ (good_runOps ops _ (good_init proj pre nums blocked lens))
 
 /-- **C06_stored_iff_reported**: after any history, a publication of `counts` records adds to every
 file exactly the records the REPORTED state demands (`expAll`: per eligible channel, enabled type,
 current run directory, iff active and not paused) — nothing more, nothing less, nowhere else. -/
-theorem C06_stored_iff_reported (proj : List Bool) (pre : List Run) (nums : List Int) (blocked : List Nat) (ops : List Op) (counts : List Nat)
+theorem C06_stored_iff_reported (proj : List Bool) (pre : List Run) (nums : List Int) (blocked : List Nat) (lens : Int × Int) (ops : List Op) (counts : List Nat)
     (k : FKey) :
-    let s := runOps (St.init proj pre nums blocked) ops
+    let s := runOps (St.init proj pre nums blocked lens) ops
     stored (step s (.pub counts)).1.files k =
       stored s.files k + expAll s.ws 0 (s.chans.map (·.elig)) counts k := by
   intro s
-  have hg : Good s := good_runOps ops _ (good_init proj pre nums blocked)
+  have hg : Good s := good_runOps ops _ (good_init proj pre nums blocked lens)
   show stored (pubAll 0 s.chans counts s.files).2 k = _
   rw [stored_pubAll, contribAll_eq_expAll s.ws s.chans 0 counts k hg.2]
 
@@ -561,7 +610,8 @@ theorem openFiles_removeAll (fs : Files) (cs : List Chan) : ∀ i,
 
 /-- the oracle's bookkeeping matches the model state -/
 def Sim (o : OSt) (s : St) : Prop :=
-  o.prev = obs s ∧ o.elig = s.chans.map (·.elig) ∧ o.proj = s.chans.map (·.proj) ∧ o.dirs = s.dirs
+  o.prev = obs s ∧ o.elig = s.chans.map (·.elig) ∧ o.proj = s.chans.map (·.proj) ∧ o.dirs = s.dirs ∧
+    o.lens = s.lens
 
 theorem step_req_files (s : St) (r : List Nat) (path : Option Nat) (l22 off l3 : Bool) (map : Option Nat) :
     (step s (.req r path l22 off l3 map)).1.files = s.files := by
@@ -601,7 +651,7 @@ theorem map_start_elig (cs : List Chan) (r : Run) (l22 off l3 : Bool) :
 
 theorem chk_step_model (o : OSt) (s : St) (op : Op) (hg : Good s) (hs : Sim o s) :
     ∃ o', chkStep o op (step s op).2 (obs (step s op).1) = .ok o' ∧ Sim o' (step s op).1 := by
-  obtain ⟨hprev, helig, hproj, hdirs⟩ := hs
+  obtain ⟨hprev, helig, hproj, hdirs, hlens⟩ := hs
   cases op with
   | req r path l22 off l3 map =>
     have hfiles := step_req_files s r path l22 off l3
@@ -609,7 +659,7 @@ theorem chk_step_model (o : OSt) (s : St) (op : Op) (hg : Good s) (hs : Sim o s)
     | true =>
       have hno := C06_rejected_is_noop s _ herr
       rw [hno]
-      refine ⟨{ o with prev := obs s }, ?_, ⟨rfl, helig, hproj, hdirs⟩⟩
+      refine ⟨{ o with prev := obs s }, ?_, ⟨rfl, helig, hproj, hdirs, hlens⟩⟩
       have hcond : (obs s).ws = o.prev.ws ∧ sameFiles o.prev.files (obs s).files = true :=
         ⟨by rw [hprev], sameFiles_of_eq _ _ (by rw [hprev]; intro k; rfl)⟩
       simp only [chkStep, if_true, if_pos hcond]
@@ -638,7 +688,7 @@ theorem chk_step_model (o : OSt) (s : St) (op : Op) (hg : Good s) (hs : Sim o s)
           have hpb : pathOr path o.prev.ws.base = some run.pid := by
             rw [hprev]; exact hpath
           rw [if_neg]
-          · refine ⟨_, rfl, ⟨rfl, ?_, ?_, by simp [hdirs]⟩⟩
+          · refine ⟨_, rfl, ⟨rfl, ?_, ?_, by simp [hdirs], hlens⟩⟩
             · simp only; rw [hproj, (map_start_elig s.chans run l22 off l3).1]
             · simp only; rw [hproj, (map_start_elig s.chans run l22 off l3).2]
           · rw [hpb, hdirs]
@@ -654,7 +704,7 @@ theorem chk_step_model (o : OSt) (s : St) (op : Op) (hg : Good s) (hs : Sim o s)
         have hf : (obs { s with chans := s.chans.map (·.removeAll), ws := s.ws.stop }).fds = 0 := by
           simp [obs, WS.stop, openFiles_removeAll]
         rw [if_pos hf]
-        refine ⟨_, rfl, ⟨rfl, ?_, ?_, hdirs⟩⟩
+        refine ⟨_, rfl, ⟨rfl, ?_, ?_, hdirs, hlens⟩⟩
         · simp only [List.map_map]; rw [helig]; apply List.map_congr_left; intro c _; rfl
         · simp only [List.map_map]; rw [hproj]; apply List.map_congr_left; intro c _; rfl
       | pause =>
@@ -663,7 +713,7 @@ theorem chk_step_model (o : OSt) (s : St) (op : Op) (hg : Good s) (hs : Sim o s)
             { s with chans := s.chans.map (·.setPause true), ws := { s.ws with paused := true } } := by
           simp [step, hr, reqStep, hk]
         rw [hst]
-        refine ⟨_, rfl, ⟨rfl, ?_, ?_, hdirs⟩⟩
+        refine ⟨_, rfl, ⟨rfl, ?_, ?_, hdirs, hlens⟩⟩
         · simp only [List.map_map]; rw [helig]; apply List.map_congr_left; intro c _; rfl
         · simp only [List.map_map]; rw [hproj]; apply List.map_congr_left; intro c _; rfl
       | unpause lbl =>
@@ -675,7 +725,7 @@ theorem chk_step_model (o : OSt) (s : St) (op : Op) (hg : Good s) (hs : Sim o s)
           · simp at herr
           · rename_i hh; simp [hh]
         rw [hst]
-        refine ⟨_, rfl, ⟨rfl, ?_, ?_, hdirs⟩⟩
+        refine ⟨_, rfl, ⟨rfl, ?_, ?_, hdirs, hlens⟩⟩
         · simp only [List.map_map]; rw [helig]; apply List.map_congr_left; intro c _; rfl
         · simp only [List.map_map]; rw [hproj]; apply List.map_congr_left; intro c _; rfl
       | unpauseBad => simp [step, hr, reqStep, hk] at herr
@@ -690,14 +740,14 @@ theorem chk_step_model (o : OSt) (s : St) (op : Op) (hg : Good s) (hs : Sim o s)
       rfl
     simp only [chkStep]
     rw [firstBad_none _ _ _ hst]
-    refine ⟨_, rfl, ⟨rfl, ?_, ?_, hdirs⟩⟩
+    refine ⟨_, rfl, ⟨rfl, ?_, ?_, hdirs, hlens⟩⟩
     · simp only [step]; rw [helig, (pubAll_elig s.chans 0 counts s.files).1]
     · simp only [step]; rw [hproj, (pubAll_elig s.chans 0 counts s.files).2]
   | proj ch =>
     have hsame : sameFiles o.prev.files (obs (step s (.proj ch)).1).files = true :=
       sameFiles_of_eq _ _ (by rw [hprev]; intro k; rfl)
     simp only [chkStep, hsame, if_true]
-    refine ⟨_, rfl, ⟨rfl, ?_, ?_, hdirs⟩⟩
+    refine ⟨_, rfl, ⟨rfl, ?_, ?_, hdirs, hlens⟩⟩
     · simp only [step]; rw [helig, (setProj_maps s.chans ch).1]
     · simp only [step]; rw [hproj, (setProj_maps s.chans ch).2]
   | srcEnd =>
@@ -707,7 +757,7 @@ theorem chk_step_model (o : OSt) (s : St) (op : Op) (hg : Good s) (hs : Sim o s)
         show stored s.files k = stored (step s .srcEnd).1.files k
         simp only [step]; split <;> rfl)
     simp only [chkStep, hsame, if_true]
-    refine ⟨_, rfl, ⟨rfl, ?_, ?_, ?_⟩⟩
+    refine ⟨_, rfl, ⟨rfl, ?_, ?_, ?_, ?_⟩⟩
     · simp only [step]; split
       · simp only [List.map_map]; rw [helig]; apply List.map_congr_left; intro c _; rfl
       · exact helig
@@ -715,6 +765,7 @@ theorem chk_step_model (o : OSt) (s : St) (op : Op) (hg : Good s) (hs : Sim o s)
       · simp only [List.map_map]; rw [hproj]; apply List.map_congr_left; intro c _; rfl
       · exact hproj
     · simp only [step]; split <;> exact hdirs
+    · simp only [step]; split <;> exact hlens
   | srcStart =>
     cases hr : s.running with
     | true =>
@@ -723,7 +774,7 @@ theorem chk_step_model (o : OSt) (s : St) (op : Op) (hg : Good s) (hs : Sim o s)
       have hsame : sameFiles o.prev.files (obs s).files = true :=
         sameFiles_of_eq _ _ (by rw [hprev]; intro k; rfl)
       simp only [chkStep, hsame, Bool.not_true, Bool.false_eq_true, if_false, if_true]
-      exact ⟨_, rfl, ⟨rfl, helig, hproj, hdirs⟩⟩
+      exact ⟨_, rfl, ⟨rfl, helig, hproj, hdirs, hlens⟩⟩
     | false =>
       have hst : step s .srcStart =
           ({ s with running := true, chans := s.chans.map fun _ => Chan.new false }, false) := by simp [step, hr]
@@ -732,8 +783,31 @@ theorem chk_step_model (o : OSt) (s : St) (op : Op) (hg : Good s) (hs : Sim o s)
           (obs { s with running := true, chans := s.chans.map fun _ => Chan.new false }).files = true :=
         sameFiles_of_eq _ _ (by rw [hprev]; intro k; rfl)
       simp only [chkStep, hsame, Bool.not_true, Bool.false_eq_true, if_false]
-      refine ⟨_, rfl, ⟨rfl, ?_, ?_, hdirs⟩⟩
+      refine ⟨_, rfl, ⟨rfl, ?_, ?_, hdirs, hlens⟩⟩
       · simp only [List.map_map]; rw [helig, List.map_map]; apply List.map_congr_left; intro c _; rfl
+      · simp only [List.map_map]; rw [hproj, List.map_map]; apply List.map_congr_left; intro c _; rfl
+  | lens n p =>
+    rcases lens_step_cases s n p with h | ⟨h, he⟩ | ⟨h, he, _⟩
+    · rw [h]
+      have hsame : sameFiles o.prev.files (obs s).files = true :=
+        sameFiles_of_eq _ _ (by rw [hprev]; intro k; rfl)
+      have hws : (obs s).ws = o.prev.ws := by rw [hprev]
+      simp only [chkStep, hsame, Bool.not_true, Bool.false_eq_true, if_false, if_true, if_pos hws]
+      exact ⟨_, rfl, ⟨rfl, helig, hproj, hdirs, hlens⟩⟩
+    · rw [h]
+      have hsame : sameFiles o.prev.files (obs s).files = true :=
+        sameFiles_of_eq _ _ (by rw [hprev]; intro k; rfl)
+      have he' : (n, p) = o.lens := by rw [hlens]; exact he
+      simp only [chkStep, hsame, Bool.not_true, Bool.false_eq_true, if_false, if_pos he']
+      exact ⟨_, rfl, ⟨rfl, helig, hproj, hdirs, hlens⟩⟩
+    · rw [h]
+      have hsame : sameFiles o.prev.files
+          (obs { s with lens := (n, p), chans := s.chans.map fun c => { c with proj := false } }).files = true :=
+        sameFiles_of_eq _ _ (by rw [hprev]; intro k; rfl)
+      have he' : ¬ (n, p) = o.lens := by rw [hlens]; exact he
+      simp only [chkStep, hsame, Bool.not_true, Bool.false_eq_true, if_false, if_neg he']
+      refine ⟨_, rfl, ⟨rfl, ?_, ?_, hdirs, rfl⟩⟩
+      · simp only [List.map_map]; rw [helig]; apply List.map_congr_left; intro c _; rfl
       · simp only [List.map_map]; rw [hproj, List.map_map]; apply List.map_congr_left; intro c _; rfl
 
 theorem chk_run_model (ops : List Op) : ∀ (o : OSt) (s : St), Good s → Sim o s →
@@ -752,10 +826,10 @@ PAUSE before START, START while active, UNPAUSE with labels, malformed requests)
 projector loads, the model's observable behaviour passes the property oracle at every step:
 records are stored exactly as the reported state says, rejected requests change nothing, every
 accepted START reports a fresh run directory under the requested path, STOP leaves no file open. -/
-theorem C06_agree_all_histories (proj : List Bool) (pre : List Run) (nums : List Int) (blocked : List Nat) (ops : List Op) :
-    ∃ o', chkRun (OSt.init proj pre) ops (runModel (St.init proj pre nums blocked) ops) = .ok o' := by
-  apply chk_run_model ops _ _ (good_init proj pre nums blocked)
-  refine ⟨rfl, ?_, ?_, rfl⟩
+theorem C06_agree_all_histories (proj : List Bool) (pre : List Run) (nums : List Int) (blocked : List Nat) (lens : Int × Int) (ops : List Op) :
+    ∃ o', chkRun (OSt.init proj pre lens) ops (runModel (St.init proj pre nums blocked lens) ops) = .ok o' := by
+  apply chk_run_model ops _ _ (good_init proj pre nums blocked lens)
+  refine ⟨rfl, ?_, ?_, rfl, rfl⟩
   · show proj.map (fun _ => false) = (proj.map Chan.new).map (·.elig)
     induction proj with
     | nil => rfl
@@ -822,6 +896,75 @@ theorem C06_bad_map_refused (s : St) (r : List Nat) (path : Option Nat) (l22 off
   cases hr : s.running with
   | false => exact step_req_down s r path l22 off l3 map hr
   | true => simp [step, hr, reqStep, hk, startReq, ht]
+
+/-! ### Record lengths -/
+
+/-- while writing is active the configured record length is the one the files were started with -/
+def LensOk (s : St) : Prop := s.ws.active = true → s.startLens = s.lens
+
+theorem lensOk_step (s : St) (op : Op) (h : LensOk s) : LensOk (step s op).1 := by
+  cases op with
+  | req r path l22 off l3 map =>
+    cases hr : s.running with
+    | false => rw [step_req_down s r path l22 off l3 map hr]; exact h
+    | true =>
+      rw [step_req_run s r path l22 off l3 map hr]
+      simp only [reqStep]
+      cases hk : classify r with
+      | pause => exact h
+      | unpause lbl => simp only; split <;> exact h
+      | unpauseBad => exact h
+      | invalid => exact h
+      | stop => intro ha; simp [WS.stop] at ha
+      | start =>
+        simp only
+        cases hs : startReq s path l22 off l3 map with
+        | mk s' e =>
+          cases e with
+          | true =>
+            have := reqStep_rejected s r path l22 off l3 map (by simp [reqStep, hk, hs])
+            simp only [reqStep, hk, hs] at this
+            rw [this]; exact h
+          | false =>
+            obtain ⟨run, _, rfl⟩ := startReq_ok s path l22 off l3 map s' hs
+            intro _; rfl
+  | pub counts => exact h
+  | proj ch => exact h
+  | srcEnd =>
+    simp only [step]
+    split
+    · intro ha; simp [WS.stop] at ha
+    · exact h
+  | srcStart =>
+    simp only [step]
+    split <;> exact h
+  | lens n p =>
+    rcases lens_step_cases s n p with h1 | ⟨h1, _⟩ | ⟨h1, _, ha⟩
+    · rw [h1]; exact h
+    · rw [h1]; exact h
+    · rw [h1]; intro ha'; rw [ha] at ha'; cases ha'
+
+theorem lensOk_runOps (ops : List Op) : ∀ s, LensOk s → LensOk (runOps s ops) := by
+  induction ops with
+  | nil => intro s h; exact h
+  | cons o os ih => intro s h; exact ih _ (lensOk_step s o h)
+
+/-- **C06_lengths_fixed_while_active**: after every history, while writing is active (paused or not) the
+configured record length equals the length the current files were started with: a length request can
+only succeed while writing is inactive. -/
+theorem C06_lengths_fixed_while_active (proj : List Bool) (pre : List Run) (nums : List Int) (blocked : List Nat)
+    (lens : Int × Int) (ops : List Op) :
+    let s := runOps (St.init proj pre nums blocked lens) ops
+    s.ws.active = true → s.startLens = s.lens :=
+  lensOk_runOps ops _ (fun _ => rfl)
+
+/-- a length request that differs from the configured one is refused whenever writing is active -/
+theorem C06_length_change_refused_while_active (s : St) (n p : Int) (ha : s.ws.active = true)
+    (hd : (n, p) ≠ s.lens) : step s (.lens n p) = (s, true) := by
+  rcases lens_step_cases s n p with h | ⟨_, he⟩ | ⟨_, _, h⟩
+  · exact h
+  · exact absurd he hd
+  · rw [ha] at h; cases h
 
 /-- **C06_uncreatable_path_refused**: a START whose (explicit or remembered) base path admits no new
 directory is refused from ANY state and changes NOTHING - in particular not the reported base path, so a
@@ -934,6 +1077,14 @@ example :
       [.req sSTART (some 0) true false false none, .req sSTOP none false false false none,
        .req sSTART (some 2) true false false none, .req sSTART none true false false none]
     s.ws.base = some 0 ∧ s.ws.pat = some ⟨0, 1⟩ ∧ s.dirs = [⟨0, 1⟩, ⟨0, 0⟩] := by decide
+
+/-- record lengths: changed while inactive (projectors dropped), refused while active and while paused -/
+example :
+    let s := runOps (St.init [true] [] [1] [] (8, 3))
+      [.lens 16 4, .req sSTART (some 0) true false false none, .lens 8 3, .req sPAUSE none false false false none,
+       .lens 8 3, .lens 16 4, .req sUNPAUSE none false false false none, .pub [2]]
+    s.lens = (16, 4) ∧ s.startLens = (16, 4) ∧ (s.chans.map (·.proj)) = [false] ∧
+      stored s.files ⟨⟨0, 0⟩, 0, .ljh22⟩ = 2 := by decide
 
 example : classify [117, 110, 112, 97, 117, 115, 101, 32, 65] = .unpause (some [65]) := by decide
 example : classify (sUNPAUSE ++ [120]) = .unpauseBad := by decide
